@@ -33,30 +33,31 @@ Proof.
 Qed.
 
 Section Skip.
+  Variable q : quirks.
   Variable g : list (bytes * dm).
   Variable K : list bytes.
 
   Definition skip_form (f : nat) : Prop :=
     forall seen past ls P n s t,
       (forall c, In c ls -> mem_bytes c K = false) ->
-      walk g f ls P n s = (t, OOk) ->
-      cwalk (skip_ctl K) g f (nst seen) past ls P n s = (skip_spec K t, OOk, nst seen).
+      walk q g f ls P n s = (t, OOk) ->
+      cwalk q (skip_ctl K) g f (nst seen) past ls P n s = (skip_spec K t, OOk, nst seen).
 
   Lemma step_skip f (IH : skip_form f) seen past ls P n s k t :
     (forall c, In c ls -> mem_bytes c K = false) ->
-    explore_step g (walk g f) ls P n s k = (t, OOk) ->
-    cexplore_step (skip_ctl K) g (cwalk (skip_ctl K) g f) ls P n s (nst seen) past k
+    explore_step q g (walk q g f) ls P n s k = (t, OOk) ->
+    cexplore_step q (skip_ctl K) g (cwalk q (skip_ctl K) g f) ls P n s (nst seen) past k
     = (skip_spec K t, OOk, nst seen).
   Proof.
     intros Hls. unfold explore_step, cexplore_step.
-    destruct (explore s n (fst k)) as [[s'|]| |]; try discriminate.
+    destruct (explore q s n (fst k)) as [[s'|]| |]; try discriminate.
     2:{ intros H; inversion H; reflexivity. }
     destruct (snd k) eqn:Ek; try (intros H; apply IH; assumption).
     (* link *)
     cbn [c_once skip_ctl andb c_skip]. unfold check_link; cbn [w_budget nst].
     destruct (assoc c g) as [b|]; [|discriminate].
-    pose proof (walk_stack_suffix g f (c :: ls) (P ++ [fst k]) b s') as Hsuf.
-    destruct (walk g f (c :: ls) (P ++ [fst k]) b s') as [e o] eqn:Ew. cbn [fst] in Hsuf.
+    pose proof (walk_stack_suffix q g f (c :: ls) (P ++ [fst k]) b s') as Hsuf.
+    destruct (walk q g f (c :: ls) (P ++ [fst k]) b s') as [e o] eqn:Ew. cbn [fst] in Hsuf.
     intros H; inversion H; subst. clear H.
     change (skip_spec K (ELoad (P ++ [fst k]) c ls :: e))
       with (if negb (under_skipped K (ELoad (P ++ [fst k]) c ls)) then ELoad (P ++ [fst k]) c ls :: skip_spec K e
@@ -73,8 +74,8 @@ Section Skip.
   Lemma loop_skip f (IH : skip_form f) ls P n s :
     (forall c, In c ls -> mem_bytes c K = false) ->
     forall ks seen past reached t,
-      seqk (explore_step g (walk g f) ls P n s) ks = (t, OOk) ->
-      cloop (skip_ctl K) (cexplore_step (skip_ctl K) g (cwalk (skip_ctl K) g f) ls P n s) P ks (nst seen) past reached
+      seqk (explore_step q g (walk q g f) ls P n s) ks = (t, OOk) ->
+      cloop (skip_ctl K) (cexplore_step q (skip_ctl K) g (cwalk q (skip_ctl K) g f) ls P n s) P ks (nst seen) past reached
       = (skip_spec K t, OOk, nst seen).
   Proof.
     intros Hls. induction ks as [|k r IHr]; intros seen past reached t H.
@@ -95,7 +96,7 @@ Section Skip.
       assert (Hv : skip_spec K [visit_event P n s ls] = [visit_event P n s ls]).
       { unfold skip_spec, under_skipped. cbn. rewrite visit_event_stack, (not_under K ls Hls). reflexivity. }
       destruct (is_container n).
-      + destruct (seqk (explore_step g (walk g f) ls P n s) (children n s)) as [e o] eqn:Es.
+      + destruct (seqk (explore_step q g (walk q g f) ls P n s) (children q n s)) as [e o] eqn:Es.
         inversion H; subst. clear H.
         fold (nst seen). rewrite (loop_skip f IH ls P n s Hls _ seen past false e Es).
         change (visit_event P n s ls :: e) with ([visit_event P n s ls] ++ e).
@@ -104,11 +105,11 @@ Section Skip.
   Qed.
 End Skip.
 
-Theorem skip_run g K f root s t :
-  walk_adv g f root s = (t, OOk) ->
-  cwalk_adv (skip_ctl K) g f None root s = (skip_spec K t, OOk).
+Theorem skip_run q g K f root s t :
+  walk_adv q g f root s = (t, OOk) ->
+  cwalk_adv q (skip_ctl K) g f None root s = (skip_spec K t, OOk).
 Proof.
   intros H. unfold cwalk_adv. change {| w_budget := None; w_seen := [] |} with (nst []).
-  rewrite (skip_closed_form g K f [] false [] [] root s t); [reflexivity| |exact H].
+  rewrite (skip_closed_form q g K f [] false [] [] root s t); [reflexivity| |exact H].
   intros c [].
 Qed.
